@@ -9,8 +9,9 @@ canary() { # <grep in subject> <property>
   [ -z "$c" ] && { echo "canary $1: commit not found"; fail=$((fail+1)); return; }
   git -C /repo diff $c^ $c -- '*.go' ':!*_verif.go' > /tmp/canary.patch
   git -C /repo apply -R /tmp/canary.patch || { echo "canary $c: revert does not apply"; fail=$((fail+1)); return; }
-  n=$(cd /verif && ./check $2 quick 2>&1 | grep -c '^VIOLATION')
+  out=$(cd /verif && ./check $2 quick 2>&1); rc=$?; n=$(echo "$out" | grep -c '^VIOLATION')
   git -C /repo apply /tmp/canary.patch
+  if [ "$rc" -ge 2 ]; then echo "ERROR   check $2 exit $rc on revert of $c: $(echo "$out" | tail -1)"; fail=$((fail+1)); return; fi
   if [ "$n" -gt 0 ]; then echo "KILLED  revert of $c ($1) by $2 ($n violations)"; pass=$((pass+1)); else echo "MISSED  revert of $c ($1) by $2"; fail=$((fail+1)); fi
 }
 if [ "$1" != "seeds-only" ]; then
@@ -25,12 +26,14 @@ canary "OPEN lengths that do not fit one octet" C14
 canary "dial completed during cancellation" C10
 canary "negotiated hold time of zero" C06
 canary "wait for the keepalive manager goroutine" C10
+canary "do not read peer.fsms from FSM goroutines" C10
 fi
 for d in /verif/seeded/*/; do
   id=$(basename $d); p=$(python3 -c "import json;print(json.load(open('$d/meta.json'))['breaks_property'])")
   git -C /repo apply $d/patch.diff 2>/dev/null || { echo "seed $id: patch does not apply"; fail=$((fail+1)); continue; }
-  out=$(cd /verif && ./check $p quick 2>&1); n=$(echo "$out" | grep -c '^VIOLATION')
+  out=$(cd /verif && ./check $p quick 2>&1); rc=$?; n=$(echo "$out" | grep -c '^VIOLATION')
   git -C /repo apply -R $d/patch.diff
+  if [ "$rc" -ge 2 ]; then echo "ERROR   check $p exit $rc on seed $id: $(echo "$out" | tail -1)"; fail=$((fail+1)); continue; fi
   obs=$(echo "$out" | grep '^VIOLATION' | sed 's/.*obligation="\([^"]*\)".*/\1/' | head -4 | tr '\n' ';')
   python3 - "$d" "$n" "$obs" <<'PY'
 import json,sys
